@@ -521,10 +521,22 @@ class SymH:
             else:
                 errors = "replace"
         eid = self._enc_id(encoding)
-        r = SText(z3.Int(e.newname("dec!tid")), z3.Int(e.newname("dec!chars")))
+        # decoding is a function of (codec, bytes): the same bytes decode to the same text wherever they are decoded
+        ASORT = z3.ArraySort(INT, BV8)
+        arr = ops._rebase(b)
+        dec_tid = self._uf("dec_tid", INT, ASORT, INT, INT)
+        dec_len = self._uf("dec_chars", INT, ASORT, INT, INT)
+        dec_ok = self._uf("decodable", INT, ASORT, INT, z3.BoolSort())
+        decodable = dec_ok(eid, arr, b.ln)
+        if errors == "strict":
+            r = SText(dec_tid(eid, arr, b.ln), dec_len(eid, arr, b.ln))
+        else:
+            rep_tid = self._uf("dec_tid_replace", INT, ASORT, INT, INT)
+            rep_len = self._uf("dec_chars_replace", INT, ASORT, INT, INT)
+            r = SText(z3.If(decodable, dec_tid(eid, arr, b.ln), rep_tid(eid, arr, b.ln)),
+                      z3.If(decodable, dec_len(eid, arr, b.ln), rep_len(eid, arr, b.ln)))
         e.assume(r.ln >= 0)
         n = b.concrete_len()
-        known = []
         for (t, tb) in e.text_facts.get(eid, []):
             if n is not None:
                 same = z3.And(tb.ln == n, *[tb.at(z3.IntVal(k)) == b.at(z3.IntVal(k)) for k in range(n)])
@@ -533,9 +545,6 @@ class SymH:
                 e.quantified = True
                 same = z3.And(tb.ln == b.ln,
                               z3.ForAll([j], z3.Implies(z3.And(0 <= j, j < b.ln), tb.at(j) == b.at(j))))
-            known.append((same, t))
-        decodable = z3.Bool(e.newname("decodable"))
-        for same, t in known:
             e.assume(z3.Implies(same, z3.And(decodable, r.tid == t.tid, r.ln == t.ln)))
         if errors == "strict" and not e.branch(decodable):
             raise PyRaise(UnicodeDecodeError(encoding, b"", 0, 1, "undecodable (A-codec)"), implicit=True,
